@@ -520,8 +520,23 @@ def rule_handle_protocol(ctx, rep: Report, rid="K7"):
                 i_guard is not None and i_data is not None and tested >= {"mxGetClassID", "mxGetM", "mxGetN"},
                 f"error guards before the cast test {sorted(x for x in tested if x)}, last guard at statement {i_guard}, mxGetData at {i_data}", hloc(f))
         rt = canon_type(f.get("type", {})).split("(")[0].strip()
+        # ... and what is returned is the stored shared pointer itself (`*spp`, copied by the return): a shared_ptr built around
+        # the raw address (`spp->get()`, aliasing constructor with an empty owner, ...) designates the object without owning it, so
+        # a second handle made from it does not keep the object alive
+        rets = [r for r in walk(f) if r.get("kind") == "ReturnStmt" and r.get("inner")]
+        shares = bool(rets)
+        shown = []
+        for r in rets:
+            e = strip(r["inner"][0])
+            while e.get("kind") in ("CXXConstructExpr", "CXXFunctionalCastExpr", "CXXBindTemporaryExpr", "MaterializeTemporaryExpr") and len(e.get("inner", [])) == 1:
+                e = strip(e["inner"][0])
+            raw = any(x.get("kind") in ("MemberExpr", "CXXDependentScopeMemberExpr") and x.get("name", x.get("member")) == "get" for x in walk(r))
+            deref_stored = e.get("kind") == "UnaryOperator" and e.get("opcode") == "*" and strip(e["inner"][0]).get("kind") == "DeclRefExpr"
+            shown.append(f"{e.get('kind')}{' with .get()' if raw else ''}")
+            shares = shares and deref_stored and not raw
         rep.add(rid, "unwrap_shared_ptr:returns a copy of the shared pointer (keeps the object alive)",
-                rt.replace(" ", "") == "std::shared_ptr<Class>", f"return type {rt}", hloc(f))
+                rt.replace(" ", "") == "std::shared_ptr<Class>" and shares, f"return type {rt}; returned expression(s) {shown}: only a copy of the stored "
+                f"std::shared_ptr shares ownership", hloc(f))
     # create_object cleans up what it created
     f = co[0]
     destroyed = {_expr_key(call_args(c)[0]) for c in calls(f, "mxDestroyArray")}
